@@ -10,12 +10,12 @@ PROP = dict(
              "with validation/discard flags and short rate lists; samples from {0,1,small,2^62,2^63-1,2^63,2^64-1,random}); "
              "non-trivial = some asset became active during the case; distinct by digest of (n, gap, op sequence). "
              "thorough adds every sample sequence of length <= 6 over {0,3,2^63,2^64-1} for n in 1..3, gap in {0,40}",
-        modelled=["band oracle packet handling (samples are injected by writing the fetch result)", "uint64 arithmetic as Z with explicit mod 2^64"],
+        modelled=["band oracle packet handling (samples are injected by writing the fetch result)", "uint64 arithmetic as Z (the 128-bit sum of the repaired CalculateTwa is exact)"],
         assumptions=["window size n fixed within a case (the property fixes N)", "block heights positive and increasing"],
     )
 
 MANIFEST = dict(
-    level_text="Ring-refinement invariant of the price window proved for every window size n>=2 and every finite history of samples / discard resets / validation failures (no panic, activation only on a full window, published value = integer mean of the last n samples modulo the uint64 wrap the code has); n=1 and the uint64 wrap are proved refuted and listed as known findings. The model is tied to /repo by a differential run of UpdatePriceList and market.BeginBlocker on every check.",
+    level_text="Ring-refinement invariant of the price window proved for every window size n>=1 and every finite history of samples / discard resets / validation failures (no panic, activation only on a full window, published value = integer mean of the last n samples). The two defects found on the original tree (window size 1 panic, uint64 wrap of the sum) were repaired by fix: commits b0fc61e and ba7bc26; the model follows the repaired code and their witnesses stay in the corpus. The model is tied to /repo by a differential run of UpdatePriceList and market.BeginBlocker on every check.",
     design_ref="DESIGN.md section 4 C17",
     level_note="Trusted: Coq kernel, extraction (ExtrOcamlBasic), OCaml runner, Go harness; band packet handling modelled by injecting fetch results. No axioms (Closed under the global context).",
     technique="Coq proof (ring-refinement invariant by induction over histories) + model/implementation correspondence run",
